@@ -80,6 +80,20 @@ func genCorridor(r *Rng, class string) corridor {
 		if r.Bool(30) {
 			translateCorridor(&c, r)
 		}
+	} else if class == "interior" {
+		// strictly inside the first / last rectangle, off the 8-grid (odd multiples of 1/8 and 1/16): in general position with
+		// respect to the corridor's vertices, and every cross product stays exact in float64
+		off := func(a, b float64, den int) float64 {
+			k := int(b-a) * den / 2
+			return a + float64(2*r.Intn(k)+1)/float64(den)
+		}
+		c.Start = [2]float64{off(f.TLX, f.BRX, 8), off(f.TLY, f.BRY, 16)}
+		c.End = [2]float64{off(l.TLX, l.BRX, 8), off(l.TLY, l.BRY, 16)}
+		if r.Bool(40) {
+			c.Start[1] = f.TLY // one end on its edge, as the spline router calls it
+		} else if r.Bool(40) {
+			c.End[1] = l.BRY
+		}
 	} else {
 		c.Start = [2]float64{pick(f.TLX, f.BRX, false), pick(f.TLY, f.BRY, false)}
 		c.End = [2]float64{pick(l.TLX, l.BRX, false), pick(l.TLY, l.BRY, false)}
@@ -346,6 +360,9 @@ func runGeom(fs *flag.FlagSet, prop string, seed uint64, n int, outDir, file str
 		}
 		if prop == "stairs" {
 			class = "stairs"
+		}
+		if prop == "interior" {
+			class = "interior"
 		}
 		c := genCorridor(r, class)
 		if hangs < 6 {
